@@ -17,9 +17,22 @@ var c12Methods = []string{"OPTIONS", "DESCRIBE", "DESCRIBE", "SETUP", "SETUP", "
 var c12Controls = []string{"%zz", "rtsp://[::1", "", " ", "*", "?x=%zz", "?a=b", "/abs/path", "rtsp://u:p@203.0.113.9:1/x", "rtsps://127.0.0.1/x",
 	"track 1", "trackID=0", "../up", "rtsp://", "rtsp://host/%", "http://x/y", "a=b&c=d", "rtsp://127.0.0.1:99999/x", "\t", "trackID=0\x00"}
 
-func genRule(t *rapid.T, tlsOn bool) SrvRule {
-	r := SrvRule{Method: rapid.SampledFrom(c12Methods).Draw(t, "rule_method")}
-	r.Nth = rapid.SampledFrom([]int{0, 0, 0, 1, 1, 2, -1}).Draw(t, "rule_nth")
+// methods that the two program shapes actually send, weighted towards the steps with the most logic behind them
+var c12PlayMethods = []string{"OPTIONS", "DESCRIBE", "DESCRIBE", "DESCRIBE", "DESCRIBE", "SETUP", "SETUP", "SETUP", "SETUP", "PLAY", "PLAY", "PLAY",
+	"PAUSE", "TEARDOWN", "GET_PARAMETER", "CONNECT"}
+var c12RecordMethods = []string{"OPTIONS", "ANNOUNCE", "ANNOUNCE", "ANNOUNCE", "SETUP", "SETUP", "SETUP", "SETUP", "RECORD", "RECORD", "RECORD",
+	"PAUSE", "TEARDOWN", "CONNECT", "DESCRIBE"}
+
+func genRule(t *rapid.T, record bool) SrvRule {
+	methods := c12PlayMethods
+	if record {
+		methods = c12RecordMethods
+	}
+	if rapid.IntRange(0, 9).Draw(t, "any_method") == 0 {
+		methods = c12Methods
+	}
+	r := SrvRule{Method: rapid.SampledFrom(methods).Draw(t, "rule_method")}
+	r.Nth = rapid.SampledFrom([]int{0, 0, 0, 0, 1, 1, 2, -1, -1}).Draw(t, "rule_nth")
 	if r.Method == "CONNECT" {
 		r.Kind = rapid.SampledFrom([]string{"silent", "close", "banner"}).Draw(t, "conn_kind")
 		r.N = rapid.IntRange(0, 7).Draw(t, "banner")
@@ -28,12 +41,28 @@ func genRule(t *rapid.T, tlsOn bool) SrvRule {
 	kinds := []string{"status", "status", "redirect", "cseq", "drop", "chatter", "delay", "close-before", "close-after", "truncate", "garbage",
 		"hdr-del", "hdr-set", "hdr-set", "hdr-set", "hdr-dup", "clen", "frame", "request", "401", "401", "no-frames"}
 	if r.Method == "DESCRIBE" {
-		kinds = append(kinds, "sdp", "sdp", "sdp-ctl", "sdp-ctl", "sdp-ctl", "redirect")
+		kinds = append(kinds, "sdp", "sdp", "sdp", "sdp", "sdp", "sdp-ctl", "sdp-ctl", "sdp-ctl", "sdp-ctl", "sdp-ctl", "sdp-ctl", "sdp-ctl", "sdp-ctl",
+			"redirect", "redirect", "hdr-set-base", "hdr-set-base", "hdr-set-base")
 	}
 	if r.Method == "SETUP" {
-		kinds = append(kinds, "hdr-set-transport", "hdr-set-transport", "hdr-set-transport")
+		kinds = append(kinds, "hdr-set-transport", "hdr-set-transport", "hdr-set-transport", "hdr-set-transport", "hdr-set-transport", "hdr-set-transport",
+			"hdr-set-transport", "hdr-set-transport", "401", "401", "status-setup", "status-setup", "hdr-set-session", "hdr-set-session")
 	}
 	r.Kind = rapid.SampledFrom(kinds).Draw(t, "rule_kind")
+	switch r.Kind {
+	case "hdr-set-base":
+		r.Kind, r.S = "hdr-set", "Content-Base"
+		r.N = rapid.IntRange(0, 12).Draw(t, "base_val")
+		return r
+	case "hdr-set-session":
+		r.Kind, r.S = "hdr-set", "Session"
+		r.N = rapid.IntRange(0, 10).Draw(t, "session_val")
+		return r
+	case "status-setup":
+		r.Kind = "status"
+		r.N = rapid.SampledFrom([]int{461, 461, 463, 401, 400, 454}).Draw(t, "setup_status")
+		return r
+	}
 	switch r.Kind {
 	case "status":
 		r.N = rapid.SampledFrom([]int{100, 199, 201, 301, 302, 305, 400, 401, 404, 454, 455, 461, 463, 500, 551, 999, 0, 200}).Draw(t, "status")
@@ -94,11 +123,33 @@ func genHostileCase(t *rapid.T) HostileCase {
 		Medias:       rapid.IntRange(1, 3).Draw(t, "medias"),
 		Query:        rapid.IntRange(0, 3).Draw(t, "query") == 0,
 	}
+	record := rapid.IntRange(0, 3).Draw(t, "record") == 0
 	nr := rapid.IntRange(1, 4).Draw(t, "nrules")
 	for i := 0; i < nr; i++ {
-		c.Rules = append(c.Rules, genRule(t, c.TLS))
+		c.Rules = append(c.Rules, genRule(t, record))
 	}
-	record := rapid.IntRange(0, 3).Draw(t, "record") == 0
+	if !record && rapid.IntRange(0, 2).Draw(t, "paired") == 0 {
+		// deviations at two consecutive steps: a doubtful description followed by a doubtful SETUP answer
+		d := SrvRule{Method: "DESCRIBE", Nth: rapid.SampledFrom([]int{0, -1}).Draw(t, "pair_nth")}
+		switch rapid.IntRange(0, 3).Draw(t, "pair_desc") {
+		case 0:
+			d.Kind, d.N = "sdp", rapid.IntRange(0, 21).Draw(t, "sdp")
+		case 1:
+			d.Kind, d.S, d.N = "hdr-set", "Content-Base", rapid.IntRange(0, 12).Draw(t, "base_val")
+		default:
+			d.Kind, d.N, d.S = "sdp-ctl", rapid.IntRange(-1, 1).Draw(t, "ctl_level"), rapid.SampledFrom(c12Controls).Draw(t, "ctl")
+		}
+		s := SrvRule{Method: "SETUP", Nth: rapid.SampledFrom([]int{0, 0, 1, -1}).Draw(t, "pair_nth2")}
+		switch rapid.IntRange(0, 3).Draw(t, "pair_setup") {
+		case 0:
+			s.Kind, s.S = "401", rapid.SampledFrom([]string{"digest", "basic", "both", "none", "digest-nononce"}).Draw(t, "challenge")
+		case 1:
+			s.Kind, s.N = "status", rapid.SampledFrom([]int{461, 463, 401, 400}).Draw(t, "setup_status")
+		default:
+			s.Kind, s.S, s.N = "hdr-set", "Transport", rapid.IntRange(0, 32).Draw(t, "transport_val")
+		}
+		c.Rules = append(c.Rules, d, s)
+	}
 	if record {
 		c.Program = []CliOp{{Op: "announce"}, {Op: "setupall"}, {Op: "record"}, {Op: "write", N: 1}}
 	} else {
@@ -109,6 +160,9 @@ func genHostileCase(t *rapid.T) HostileCase {
 				c.Program = append(c.Program, CliOp{Op: "setup", N: i})
 			}
 			c.Program = append(c.Program, CliOp{Op: "play"})
+		}
+		if rapid.IntRange(0, 9).Draw(t, "own_description") == 0 {
+			c.Program = c.Program[1:] // the caller has its own description and never calls Describe
 		}
 	}
 	ops := []string{"options", "describe", "setup", "setupall", "play", "pause", "pause", "play", "idle", "idle", "write", "record", "announce", "close"}
